@@ -180,23 +180,27 @@ fn check_decimal(r: Result<Cow<'_, str>, Box<dyn Error>>, v: u64) {
     }
 }
 
-// @harness props=C16 tier=quick cost=200
-// @exec format_directive for %s %n %i %U %G %d, u64::to_string / u32::to_string / usize::to_string (real integer formatting)
-// @sym status record; the rendered field value below 100000 (keeps the decimal oracle loop short); depth below 100000
-// @bounds field values < 10^5; cached record (record selection is C13's c13_entry_metadata_record)
-/// %s %n %i %U %G render size, link count, inode, uid, gid of the record in decimal; %d the depth.
-#[kani::proof]
-#[kani::unwind(8)]
-#[kani::stub(alloc::raw_vec::handle_error, he_stub)]
-#[kani::stub(std::alloc::handle_alloc_error, hae_stub)]
-#[kani::stub(std::rt::thread_cleanup, noop_stub)]
-fn c16_directive_decimal() {
+macro_rules! decimal_directive {
+    ($name:ident, $canary:ident, $which:expr, $unwind:expr) => {
+        #[kani::proof]
+        #[kani::unwind($unwind)]
+        #[kani::stub(alloc::raw_vec::handle_error, he_stub)]
+        #[kani::stub(std::alloc::handle_alloc_error, hae_stub)]
+        #[kani::stub(std::rt::thread_cleanup, noop_stub)]
+        fn $name() { run_decimal($which, false); }
+        #[kani::proof]
+        #[kani::unwind($unwind)]
+        #[kani::stub(alloc::raw_vec::handle_error, he_stub)]
+        #[kani::stub(std::alloc::handle_alloc_error, hae_stub)]
+        #[kani::stub(std::rt::thread_cleanup, noop_stub)]
+        fn $canary() { run_decimal($which, true); }
+    };
+}
+fn run_decimal(which: u8, canary: bool) {
     let (m, st) = any_metadata();
     let depth: usize = kani::any();
     kani::assume(depth < 100_000);
     let entry = entry_with(m, depth, Follow::Never);
-    let which: u8 = kani::any();
-    kani::assume(which < 6);
     let (d, v) = match which {
         0 => (FormatDirective::Size, st.st_size as u64),
         1 => (FormatDirective::HardlinkCount, st.st_nlink),
@@ -206,26 +210,46 @@ fn c16_directive_decimal() {
         _ => (FormatDirective::Depth, depth as u64),
     };
     kani::assume(v < 100_000);
-    check_decimal(format_directive(&entry, &d), v);
-    kani::cover!(which == 0 && v == 99_999);
-    kani::cover!(which == 5 && v == 0);
-    kani::cover!(which == 3 && v == 1000);
+    // canary: compare against a neighbouring field (wrong on purpose)
+    let expect = if canary { match which { 0 => st.st_nlink, 1 => st.st_ino, 2 => st.st_nlink, 3 => st.st_gid as u64, 4 => st.st_uid as u64, _ => st.st_size as u64 } } else { v };
+    check_decimal(format_directive(&entry, &d), expect);
+    kani::cover!(v == 99_999);
+    kani::cover!(v == 0);
     std::mem::forget(entry);
 }
-#[kani::proof]
-#[kani::unwind(8)]
-#[kani::stub(alloc::raw_vec::handle_error, he_stub)]
-#[kani::stub(std::alloc::handle_alloc_error, hae_stub)]
-#[kani::stub(std::rt::thread_cleanup, noop_stub)]
-fn c16_directive_decimal_canary() {
-    let (m, st) = any_metadata();
-    kani::assume(st.st_nlink < 100_000 && st.st_ino < 100_000);
-    let entry = entry_with(m, 1, Follow::Never);
-    check_decimal(format_directive(&entry, &FormatDirective::Inode), st.st_nlink); // wrong field: must FAIL
-    std::mem::forget(entry);
-}
+// @harness props=C16 tier=quick cost=60 flags=nomem
+// @exec format_directive(%s), u64::to_string (real integer formatting)
+// @sym status record; size below 100000 (keeps the decimal oracle loop short)
+// @bounds value < 10^5; cached record (which record is cached: c13_entry_metadata_record)
+// %s renders the size in decimal
+decimal_directive!(c16_directive_s, c16_directive_s_canary, 0, 8);
+// @harness props=C16 tier=quick cost=60 flags=nomem
+// @exec format_directive(%n)
+// @sym status record; link count below 100000
+// @bounds value < 10^5
+decimal_directive!(c16_directive_n, c16_directive_n_canary, 1, 8);
+// @harness props=C16 tier=quick cost=60 flags=nomem
+// @exec format_directive(%i)
+// @sym status record; inode below 100000
+// @bounds value < 10^5
+decimal_directive!(c16_directive_i, c16_directive_i_canary, 2, 8);
+// @harness props=C16 tier=quick cost=60 flags=nomem
+// @exec format_directive(%U)
+// @sym status record; uid below 100000
+// @bounds value < 10^5
+decimal_directive!(c16_directive_uid, c16_directive_uid_canary, 3, 8);
+// @harness props=C16 tier=quick cost=60 flags=nomem
+// @exec format_directive(%G)
+// @sym status record; gid below 100000
+// @bounds value < 10^5
+decimal_directive!(c16_directive_gid, c16_directive_gid_canary, 4, 8);
+// @harness props=C16 tier=quick cost=60 flags=nomem
+// @exec format_directive(%d), usize::to_string
+// @sym depth below 100000
+// @bounds value < 10^5
+decimal_directive!(c16_directive_d, c16_directive_d_canary, 5, 8);
 
-// @harness props=C16 tier=quick cost=120
+// @harness props=C16 tier=quick cost=120 flags=nomem
 // @exec format_directive(%m) with the real format!("{:>03o}")
 // @sym status record (all mode bits)
 // @bounds none beyond the type
@@ -276,29 +300,13 @@ fn letter(mode: u32) -> u8 {
         libc::S_IFCHR => b'c', libc::S_IFIFO => b'p', libc::S_IFSOCK => b's', _ => b'U',
     }
 }
-// @harness props=C16 tier=quick cost=250 flags=nomem
-// @exec format_directive(%y, %Y), format_non_link_file_type, WalkEntry::{path_is_symlink,file_type}, WalkError::{is_not_found,is_loop}
-// @sym world (all file types, stat errno {ENOENT, ELOOP, EACCES}), follow P/H/L, depth 0..1
-// @bounds one path; %Y is asserted only where the follow mode does not apply to the entry (under -L, GNU's %Y and -xtype differ by design)
-// @assume kernel contract for stat vs lstat
-/// %y is the letter of the type -type tests (the record the follow mode selects); %Y, for an entry the follow mode does
-/// not resolve, is the letter -xtype tests: the link's target type, N if dangling, L on a loop, ? on other errors.
-#[kani::proof]
-#[kani::unwind(3)]
-#[kani::stub(alloc::fmt::format, fmt_stub)]
-#[kani::stub(alloc::raw_vec::handle_error, he_stub)]
-#[kani::stub(std::alloc::handle_alloc_error, hae_stub)]
-#[kani::stub(std::rt::thread_cleanup, noop_stub)]
-#[kani::stub(std::fs::metadata, stat_stub)]
-#[kani::stub(std::fs::symlink_metadata, lstat_stub)]
-fn c16_directive_y() {
+fn run_directive_y(big_y: bool) {
     let (lst, sst, s_ok, s_err) = any_world(&[libc::ENOENT, libc::ELOOP, libc::EACCES]);
     let follow = any_follow();
     let depth: usize = kani::any();
     kani::assume(depth <= 1);
     let follows = follow.follow_at_depth(depth);
     let entry = WalkEntry::new("a", depth, follow);
-    let big_y: bool = kani::any();
     let r = format_directive(&entry, &FormatDirective::Type { follow_links: big_y });
     match r {
         Ok(s) => {
@@ -309,21 +317,29 @@ fn c16_directive_y() {
                     Some(rec) => assert!(b[0] == letter(rec.st_mode)),
                     None => assert!(b[0] == b'U'),
                 }
+                kani::cover!(follows && is_type(lst.st_mode, libc::S_IFLNK) && s_ok);
+                kani::cover!(follows && b[0] == b'l');
             } else if !follows {
                 let want = if !is_type(lst.st_mode, libc::S_IFLNK) { letter(lst.st_mode) }
                     else if s_ok { letter(sst.st_mode) }
                     else if s_err == libc::ENOENT { b'N' } else if s_err == libc::ELOOP { b'L' } else { b'?' };
                 assert!(b[0] == want);
+                kani::cover!(b[0] == b'N');
+                kani::cover!(b[0] == b'L');
             }
-            kani::cover!(!big_y && follows && is_type(lst.st_mode, libc::S_IFLNK) && s_ok);
-            kani::cover!(big_y && !follows && b[0] == b'N');
-            kani::cover!(big_y && !follows && b[0] == b'L');
             std::mem::forget(s);
         }
         Err(e) => { std::mem::forget(e); assert!(false); }
     }
     std::mem::forget(entry);
 }
+// @harness props=C16 tier=quick cost=250 flags=nomem
+// @exec format_directive(%y), format_non_link_file_type, WalkEntry::{path_is_symlink,file_type}
+// @sym world (all file types, stat errno {ENOENT, ELOOP, EACCES}), follow P/H/L, depth 0..1
+// @bounds one path
+// @assume kernel contract for stat vs lstat
+// @replay printf_y
+/// %y is the letter of the type -type tests: the record the follow mode selects (a dangling link under -L is still 'l').
 #[kani::proof]
 #[kani::unwind(3)]
 #[kani::stub(alloc::fmt::format, fmt_stub)]
@@ -332,7 +348,31 @@ fn c16_directive_y() {
 #[kani::stub(std::rt::thread_cleanup, noop_stub)]
 #[kani::stub(std::fs::metadata, stat_stub)]
 #[kani::stub(std::fs::symlink_metadata, lstat_stub)]
-fn c16_directive_y_canary() {
+fn c16_directive_y() { run_directive_y(false); }
+// @harness props=C16 tier=quick cost=250 flags=nomem
+// @exec format_directive(%Y), WalkError::{is_not_found,is_loop}
+// @sym as c16_directive_y
+// @bounds one path; asserted only where the follow mode does not apply to the entry (under -L, GNU's %Y and -xtype differ by design)
+// @assume kernel contract for stat vs lstat
+/// %Y, for an entry the follow mode does not resolve, is the letter -xtype tests: the link's target type, N if dangling, L on a loop, ? otherwise.
+#[kani::proof]
+#[kani::unwind(3)]
+#[kani::stub(alloc::fmt::format, fmt_stub)]
+#[kani::stub(alloc::raw_vec::handle_error, he_stub)]
+#[kani::stub(std::alloc::handle_alloc_error, hae_stub)]
+#[kani::stub(std::rt::thread_cleanup, noop_stub)]
+#[kani::stub(std::fs::metadata, stat_stub)]
+#[kani::stub(std::fs::symlink_metadata, lstat_stub)]
+fn c16_directive_big_y() { run_directive_y(true); }
+#[kani::proof]
+#[kani::unwind(3)]
+#[kani::stub(alloc::fmt::format, fmt_stub)]
+#[kani::stub(alloc::raw_vec::handle_error, he_stub)]
+#[kani::stub(std::alloc::handle_alloc_error, hae_stub)]
+#[kani::stub(std::rt::thread_cleanup, noop_stub)]
+#[kani::stub(std::fs::metadata, stat_stub)]
+#[kani::stub(std::fs::symlink_metadata, lstat_stub)]
+fn c16_directive_big_y_canary() {
     let (lst, _sst, _s_ok, _s_err) = any_world(&[libc::ENOENT]);
     let entry = WalkEntry::new("a", 1, Follow::Never);
     if let Ok(s) = format_directive(&entry, &FormatDirective::Type { follow_links: true }) {
